@@ -24,15 +24,16 @@ EXTENDS Integers, Sequences
 
 Ops == <<"eq", "ne", "lt", "le", "gt", "ge">>
 
-\* ---- three-way comparison of sequences of naturals, shorter = padded with `pad'
-RECURSIVE SeqCmp(_, _, _)
+\* ---- three-way comparison of sequences of naturals (not recursive: TLC's stack is small).
+\*      padded: the shorter one continues with zeros (binary digits); otherwise a proper prefix is smaller
 SeqCmp(x, y, padded) ==
-  IF x = <<>> /\ y = <<>> THEN 0
-  ELSE IF x = <<>> THEN (IF padded THEN SeqCmp(<<0>>, y, padded) ELSE 0 - 1)
-  ELSE IF y = <<>> THEN (IF padded THEN SeqCmp(x, <<0>>, padded) ELSE 1)
-  ELSE IF Head(x) < Head(y) THEN 0 - 1
-  ELSE IF Head(x) > Head(y) THEN 1
-  ELSE SeqCmp(Tail(x), Tail(y), padded)
+  LET n    == IF Len(x) > Len(y) THEN Len(x) ELSE Len(y)
+      pad  == IF padded THEN 0 ELSE 0 - 1
+      X(i) == IF i <= Len(x) THEN x[i] ELSE pad
+      Y(i) == IF i <= Len(y) THEN y[i] ELSE pad
+      d    == {i \in 1..n : X(i) # Y(i)}
+  IN IF d = {} THEN 0
+     ELSE LET k == CHOOSE i \in d : \A j \in d : i <= j IN IF X(k) < Y(k) THEN 0 - 1 ELSE 1
 
 \* ---- exact order of numbers: -1, 0, 1, or 2 = unordered (NaN involved)
 MagCmp(x, y) ==        \* both "fin"/"inf"/"zero", compares |x| with |y|
